@@ -71,6 +71,10 @@ func (w *World) Regimes() map[string][]string {
 	// any v2 vote: the free blocks lift them to just below / exactly at / above
 	// DPoSV2EffectiveVotes (membership of DposV2EffectedProducers)
 	out["v2ready"] = append(append([]string{}, late...), "stake:0", fmt.Sprintf("upv2:%d", reps[0]), fmt.Sprintf("upv2:%d", reps[1]))
+	// v2 + illegal-proposal evidence against producer 3 (the only one left with DPoS v1
+	// identity, a sitting arbiter) at 26: when the next block reaches DPoSV2ActiveHeight (29) the
+	// forced cancellation of v1 producers meets a producer in state Illegal
+	out["v2illegal"] = append(append([]string{}, out["v2"]...), "empty", "illegal:3", "empty", "empty")
 	// late + the chain reverted to PoW (16), RevertToDPOS accepted at 18 (work height W = 28) and
 	// PoW blocks up to W: the next block, W+1, restarts DPOSStartHeight AND performs the regular
 	// irreversibility advance (two changes of the same field at one height)
@@ -83,7 +87,7 @@ func (w *World) Regimes() map[string][]string {
 }
 
 // RegimeNames lists the regimes in exploration order.
-var RegimeNames = []string{"early", "late", "inactive", "canceled", "v2", "v2active", "returned", "v2ready", "public", "claim", "illegalact"}
+var RegimeNames = []string{"early", "late", "inactive", "canceled", "v2", "v2active", "returned", "v2ready", "public", "claim", "illegalact", "v2illegal"}
 
 // StateCanonOpts are the canonicalisation options under which two DPoS states are compared.
 var StateCanonOpts = &CanonOpts{
